@@ -599,8 +599,8 @@ def run_order_case(case):
 
 # ==========================================================================================================
 
-GUARD_S = (10, 60)          # wall-clock guard per case (quick, thorough); regular cases take 0.05 - 4 s
-REFUND_CAP_S = (40, 240)    # at most this much time lost in guarded cases is handed back to the budget
+GUARD_S = (8, 60)           # wall-clock guard per case (quick, thorough); regular cases take 0.05 - 4 s
+REFUND_CAP_S = (32, 240)    # at most this much time lost in guarded cases is handed back to the budget
 
 
 def elapsed(ctx, t0):
